@@ -312,6 +312,8 @@ func (e *Engine) equals(t types.Type, x, y Value) *Term {
 			return p.False
 		}
 		return p.Cmp(OpEq, x.idx, yp.idx)
+	case *rtypeObj:
+		return p.Bool(types.Identical(x.t, y.(*rtypeObj).t))
 	case *Map:
 		return p.Bool(x == y.(*Map))
 	case *Chan:
